@@ -980,7 +980,7 @@ def run(check, tier, seed):
     s.done()
 
     # (3) seeded random histories
-    n = 120000 if tier == "thorough" else 6000
+    n = 300000 if tier == "thorough" else 6000
     base = 1 + seed * 1000003
     s = Suite(check, "C08.random", f"{n} seeded random histories of 2..8 operations (all of the above plus SIGINT delivered between and "
               "during requests on a pty with sigint_event, bursts straddling the read size, two triggers of every kind, one or two "
